@@ -52,6 +52,9 @@ type Config struct {
 	// BackupLoop runs the store's own continuous sync loop (1 s batching delay, position map cached for the
 	// whole history) instead of explicit sync events; faults are armed by "arm:<fault>" events.
 	BackupLoop bool `json:"backup_loop,omitempty"`
+	// BackupFullSync (with BackupLoop), in seconds: the loop's periodic full sync (position map fetched again) runs
+	// at this interval instead of practically never; an idle primary must then notice every change of the service.
+	BackupFullSync int `json:"backup_full_sync,omitempty"`
 	// Prelude is a fixed event sequence applied (and checked) before the search starts: non-initial start states.
 	Prelude []string `json:"prelude,omitempty"`
 }
@@ -99,6 +102,7 @@ type runner struct {
 	priPrevName string
 	restores  int
 	recreateRolledBack map[string]bool // databases whose re-creation was started and rolled back (an empty database file may exist)
+	idles int // idle events so far (an idle period changes no state the key sees; at most two per history)
 }
 
 type frameRec struct {
@@ -711,6 +715,14 @@ func (r *runner) apply(ev string) bool {
 		if p := r.c.Primary(); p != nil && r.fcs[p.Cfg.Name] != nil {
 			r.fcs[p.Cfg.Name].Arm = f[1]
 		}
+	case "idle":
+		r.idles++
+		// nothing happens for longer than two periods of the backup loop's full sync
+		d := 12 * time.Second
+		if r.cfg.BackupFullSync > 0 {
+			d = time.Duration(2*r.cfg.BackupFullSync+2) * time.Second
+		}
+		lab.Settle(d)
 	case "fwd":
 		return r.forward(f[1], f[2])
 	case "burst":
@@ -1133,6 +1145,9 @@ func (r *runner) enabled() []string {
 	if has("recover") && p != nil {
 		out = append(out, "recover")
 	}
+	if has("idle") && r.idles < 2 {
+		out = append(out, "idle")
+	}
 	for _, n := range []string{"R1", "R2"} {
 		if r.down[n] {
 			if has("start") {
@@ -1300,6 +1315,9 @@ func (r *runner) stateKey() string {
 			}
 		}
 	}
+	if r.idles > 0 {
+		fmt.Fprintf(h, "idles %d\n", r.idles) // elapsed time is state too where a periodic task is under test
+	}
 	// The reference history matters for the oracles (which positions are known).
 	return hex.EncodeToString(h.Sum(nil)[:16])
 }
@@ -1356,6 +1374,9 @@ func (r *runner) attachBackup(cfg *lab.NodeConfig) {
 		if r.cfg.BackupLoop {
 			s.BackupDelay = time.Second
 			s.BackupFullSyncInterval = time.Hour // the cached position map is never refreshed within a history
+			if r.cfg.BackupFullSync > 0 {
+				s.BackupFullSyncInterval = time.Duration(r.cfg.BackupFullSync) * time.Second
+			}
 		}
 	}
 }
@@ -1614,7 +1635,11 @@ func (r *runner) loopCaughtUp(ev string) {
 		return
 	}
 	var why string
-	ok := lab.WaitFor(20*time.Second, func() bool {
+	wait := 20 * time.Second
+	if r.cfg.BackupFullSync > 0 {
+		wait += 2 * time.Duration(r.cfg.BackupFullSync) * time.Second
+	}
+	ok := lab.WaitFor(wait, func() bool {
 		why = ""
 		names := map[string]bool{}
 		for _, db := range p.Store.DBs() {
@@ -1632,7 +1657,7 @@ func (r *runner) loopCaughtUp(ev string) {
 			if pri == svc {
 				continue
 			}
-			if r.priPrevName == p.Cfg.Name && !strings.HasPrefix(ev, "restart:") && r.priPosPrev[n] == pri {
+			if r.cfg.BackupFullSync == 0 && r.priPrevName == p.Cfg.Name && !strings.HasPrefix(ev, "restart:") && r.priPosPrev[n] == pri {
 				continue // nothing changed on this primary: the loop only runs on a change (or on the full-sync interval, an hour here)
 			}
 			if prev, ok := r.svcPosPrev[n]; ok && !prev.IsZero() && pri.TXID > svc.TXID && uint64(svc.TXID) >= uint64(prev.TXID)+litefs.MaxBackupLTXFileN {
@@ -1645,7 +1670,7 @@ func (r *runner) loopCaughtUp(ev string) {
 	})
 	if !ok {
 		fc := r.fcs[p.Cfg.Name]
-		r.viol("C14/loop-no-catch-up/"+evKind(ev), "20 fake seconds after %q the sync loop has not brought the service to the primary's position: %s\nclient calls: %v", ev, why, tailS(fc.Calls, 12))
+		r.viol("C14/loop-no-catch-up/"+evKind(ev), "%s after %q the sync loop has not brought the service to the primary's position: %s\nclient calls: %v", wait, ev, why, tailS(fc.Calls, 12))
 		return
 	}
 	lab.Settle(1500 * time.Millisecond) // let replicas follow a restore
